@@ -1013,7 +1013,9 @@ def mon_C10_behaviour(blocks):
             r = a.req
             v = r.inp
             sid = g.sid_of.get(v) if v and v != "-" else None
-            if sid is not None and g.alive.get(sid):
+            # the obligation concerns an id that was still known when the interrupted call began (with a grace period of 0 the
+            # regular clean-up removes a replaced id at once, response or no response)
+            if sid is not None and g.alive.get(sid) and v in a.pre_store:
                 pending[r.tok[1]] = (v, sid, dict(g.data[sid]), g.user[sid], b.idx)
         if b.tok[0] == "req" and b.tok[1] in pending and not b.faulted:
             v, sid, data, user, at = pending.pop(b.tok[1])
